@@ -1056,6 +1056,37 @@ class ProgressSuite(PairedSuite):
                                       "iv": fstr(iv), "size_change": size_change, "awaited": awaited,
                                       "look_to": fstr(look_to), "second": second, "churn": churn}}
 
+        for i in range(16 if tier == "quick" else 160):
+            # Wheatley has rung every bell for some rows (so no row had a human bell to arm).  During a BACKSTROKE row, after
+            # bell b has struck, somebody catches hold of b and pulls its next handstroke early - before Wheatley has
+            # finished the row - and then rings in step, punctually: nobody is ever behind, the touch goes on
+            n = rng.choice([5, 6, 8])
+            spec = {"kind": "plain_hunt", "stage": n, "custom": None}
+            nrows = 8
+            rows = probe_rows(spec, n, nrows)
+            peal = rng.choice([150, 180])
+            iv = blow_interval(peal, n)
+            look_to = Fraction(rng.randint(15, 40), 100) + Fraction(1, 1000)
+            start = look_to + 3
+            nominal = lambda r, p: start + iv * (r * n + p + (r // 2))          # noqa: E731
+            r0 = rng.choice([1, 3])
+            early_places = [p for p in range(0, n - 2)]
+            p0 = rng.choice(early_places)
+            b = rows[r0][p0]
+            evs = [ev(0, "global", [True] * n), ev(Fraction(3, 100), "user_entered", 11, "Alice"), ev(look_to, "call", "Look to")]
+            t_assign = nominal(r0, p0) + iv * Fraction(rng.randint(30, 60), 100)
+            evs.append(ev(t_assign, "assign", b, 11))
+            t_first = max(t_assign + Fraction(1, 100), nominal(r0, n - 1) - iv * Fraction(rng.randint(20, 70), 100))
+            evs.append(ev(t_first + Fraction(rng.randint(1, 999), 10 ** 7), "ring", b))
+            for r in range(r0 + 2, nrows):
+                evs.append(ev(nominal(r, rows[r].index(b)) - Fraction(5, 1000) + Fraction(rng.randint(1, 999), 10 ** 7), "ring", b))
+            rh = {"kind": "wait", "inertia": 1.0, "initial_inertia": 1.0, "peal_speed": peal, "gap": 1.0, "max": 15}
+            horizon = nominal(nrows, 0) + Fraction(1, 2) + Fraction(1, 3000)
+            yield {"a": base(spec, n, rh, evs, horizon),
+                   "oracle": {"n": n, "nrows": nrows, "humans": [b], "style": "punctual", "kind": "wait", "iv": fstr(iv),
+                              "size_change": None, "awaited": [], "look_to": fstr(look_to), "second": None, "churn": None,
+                              "joiner": [b, r0]}}
+
     def cases(self, rng, tier):
         yield from self.scenarios(rng, tier)
 
